@@ -28,6 +28,12 @@ def inputs(tier, seed):
         for s in svgen.sentences(rng, 150 if quick else 3000):
             out.append(("sv", s, "grammar"))
             out.append(("sv", treecheck.decorate(s, rng, heavy=True), "grammar+layout"))
+        # one sentence per alternative of the grammar (every construct form, incl. the high-arity full forms)
+        import c02
+        sw = c02.class_sweep(rng)
+        for (st, b, ch, note) in [x for x in sw if (not quick) or x[3].endswith('/0')]:
+            c = c02.build_case("x", st, b, ch)
+            out.append(("sv", c["text"], "grammar-sweep"))
     except ImportError:
         pass
     return out
